@@ -13,7 +13,7 @@ import time
 
 VERIF = os.path.dirname(os.path.dirname(os.path.abspath(__file__)))
 FILL_OPS = ("Fill", "FillNoW", "Increment")
-NEW_OPS = ("New", "NewDefault", "NewShared")
+NEW_OPS = ("New", "NewDefault", "NewShared", "MH")
 DERIVE = {"Add": "add", "Combine": "add", "Mul": "mul", "Zero": "zero", "Copy": "copy", "Pickle": "pickle",
           "Reload": "reload", "Immutable": "reload"}
 
@@ -27,7 +27,7 @@ def slot_tags(events, upto):
             continue
         op = ev["op"]
         if op in NEW_OPS:
-            tags[ev["s"]] = set()
+            tags[ev.get("s", ev.get("t"))] = set()
         elif op in DERIVE:
             src = set(tags.get(ev["a"], set()))
             if "b" in ev:
@@ -61,6 +61,10 @@ def attribute(ev, cl, tags, trace):
     if "pickle" in opnd:
         lineage.add("C11")
     silent = ev.get("out") == "ok"  # for an `outcome` failure: the call returned although it had to raise
+    if op == "MH":
+        return {"C06"} if cl == "noshare" else {"C14"}
+    if kind == "frame" and op in ("Add", "Combine") and cl not in ("frame", "noshare"):
+        return {"C14", "C01"}
     if op in NEW_OPS:
         return {"C06"} if cl in ("noshare", "identity", "frame") else {"C02", "C06"}
     if op in FILL_OPS:
